@@ -424,6 +424,13 @@ class List(list, base.Symbolic, pg_typing.CustomTyping):
       if isinstance(value, base.Symbolic) and value.sym_parent is self:
         value = value.clone()
 
+    # The size limit applies to every way of growing the list (e.g.
+    # `rebind` with an index beyond the end or with `pg.Insertion`).
+    if ((should_insert or index >= len(self))
+        and self.max_size is not None and len(self) >= self.max_size):
+      raise ValueError(
+          self._error_message(f'List reached its max size {self.max_size}.'))
+
     old_value = pg_typing.MISSING_VALUE
     # Replace an existing value.
     if index < len(self) and not should_insert:
@@ -622,6 +629,12 @@ class List(list, base.Symbolic, pg_typing.CustomTyping):
       raise IndexError(
           f'list index out of range. '
           f'Length={len(self)}, index={index}')
+
+    if self._value_spec and len(self) <= self._value_spec.min_size:
+      raise ValueError(
+          self._error_message(
+              f'Cannot delete item: min size ({self._value_spec.min_size}) '
+              f'is reached.'))
 
     old_value = self.sym_getattr(index)
     super().__delitem__(index)
